@@ -1,12 +1,20 @@
 TUS = ['src/base/QXmppDataForm.cpp']
-MODELS = ['qt_core.c', 'qt_list.c', 'c20_models.c']
+MODELS = ['c20_qt_core.c', 'c20_qt_list.c', 'c20_models.c']
+# std::sort on n <= 3 elements stays in insertion sort; __unguarded_linear_insert has no range guard (it relies on the sentinel
+# established by the caller), so it gets its exact bound: n - 1 iterations (+1 for the unwinding assertion)
+LB = {'check_against_oracle': 66, 'verificationStringEv': 4,
+      r'^_ZSt25__unguarded_linear_insertIN5QListIN16QXmppDiscoveryIq8Identity': 2,
+      r'^_ZSt25__unguarded_linear_insertIN5QListI7QString': 3}
 def I(name, entry, **kw):
-    d = dict(name=name, entry=entry, unwind=10, timeout_s=300, mem_gb=6, tiers=('quick', 'thorough'), bound=''); d.update(kw); return d
+    d = dict(name=name, entry=entry, unwind=5, timeout_s=300, mem_gb=6, tiers=('quick', 'thorough'), bound=''); d.update(kw); return d
 def G(name, insts, **defs):
-    return dict(name=name, harness='h_vs.cpp', tus=TUS, models=MODELS, cxxdefs=defs, loop_bounds={'check_against_oracle': 66}, instances=insts)
+    return dict(name=name, harness='h_vs.cpp', tus=TUS, models=MODELS, cxxdefs=defs, loop_bounds=LB, instances=insts)
 SPEC = dict(
     property='C20',
     groups=[
+        G('probe', [I('probe', 'h_probe')], C20_PROBE=1),
+        G('probe3', [I('probe3', 'h_probe')], C20_PROBE=3),
+        G('probe2', [I('probe2', 'h_probe')], C20_PROBE=2),
         G('vs_2_3', [I('idfeat_ref_2_3', 'h_idfeat_ref')], C_NID=2, C_NF=3),
     ],
     bounds=[], assumptions=[], outside=[],
